@@ -7,7 +7,9 @@ Case kinds
          impl: intermediate form of the first item under the case's options (real lexer's token
          stream of the real encoder's text / to_dict / ElementTree of the MRX text), the decoded
          structure (insertion order kept) and the intermediate form of the re-encoding.
-         model: the same three things from lean/Verif/C01/Model.lean (not for Indexed MRS).
+         model: the same three things from lean/Verif/C01/Model.lean / Indexed.lean, plus ("list") the list API on all
+         items: intermediate form of dumps(items), what loads() returns, document texts (SimpleMRS, Indexed MRS incl.
+         the indented layout of Indexed MRS for indent=True and one integer width).
          oracle: every clause of the property on the real code, all indent settings and APIs.
   parse  a (possibly mutated / truncated) SimpleMRS text: real decode()/loads() against the model's
          recursive-descent parser run on the REAL lexer's token stream of that text.
@@ -17,6 +19,8 @@ Case kinds
   longtext deterministic long MRX / MRS-JSON documents (> 16 / 64 / 128 KiB) through loads / load (StringIO, filename,
          open file), items regenerated from a fixed-seed pool (oracle only).
   churn  12 structures (Indexed MRS: with 12 disagreeing SEM-Is) built, used and dropped in a row (oracle only).
+  foreign hand-written MRX documents (reader branches the encoder's output never takes); what decode() returns must
+         round-trip (oracle only).
   long   deterministic long documents (> 1024 / > 2048 lexer tokens, item starts around the multiples of 1024)
          for the list APIs of SimpleMRS and Indexed MRS, and single structures of that size (oracle only).
 """
@@ -92,12 +96,14 @@ def m_to_wire(m):
 
 def m_from_wire(j):
     """a FRESH MRS object (MRS.__init__ patches EP ids and fills `variables` in place)."""
-    rels = [EP(uncps(e["pred"]), uncps(e["label"]), args={uncps(k): uncps(v) for k, v in e["args"]},
+    # empty parts are passed as None: the constructors' own defaults (`if args is None: args = {}` …) are then what
+    # the codecs see; two structures must never share such a default
+    rels = [EP(uncps(e["pred"]), uncps(e["label"]), args=({uncps(k): uncps(v) for k, v in e["args"]} or None),
                lnk=lnk_from_wire(e["lnk"]), surface=uncps(e["surface"]), base=uncps(e["base"])) for e in j["rels"]]
-    return MRS(uncps(j["top"]), uncps(j["index"]), rels,
-               [HCons(uncps(a), uncps(b), uncps(c)) for a, b, c in j["hcons"]],
-               icons=[ICons(uncps(a), uncps(b), uncps(c)) for a, b, c in j["icons"]],
-               variables={uncps(v): {uncps(k): uncps(x) for k, x in ps} for v, ps in j["vars"]},
+    return MRS(uncps(j["top"]), uncps(j["index"]), rels or None,
+               [HCons(uncps(a), uncps(b), uncps(c)) for a, b, c in j["hcons"]] or None,
+               icons=[ICons(uncps(a), uncps(b), uncps(c)) for a, b, c in j["icons"]] or None,
+               variables={uncps(v): {uncps(k): uncps(x) for k, x in ps} for v, ps in j["vars"]} or None,
                lnk=lnk_from_wire(j["lnk"]), surface=uncps(j["surface"]), identifier=uncps(j["ident"]))
 
 
@@ -279,6 +285,10 @@ def gen_mrs(rng, codec, size=None, pred_family=None):
         base = gen_text(rng) if codec in ("json", "mrx") and rng.random() < 0.25 else None
         rels.append({"pred": cps(gen_pred(rng, pred_family)), "label": cps(label), "args": args,
                      "lnk": gen_lnk(rng, codec), "surface": cps(surface), "base": cps(base)})
+    if rels and rng.random() < 0.08:
+        # an identical predication once more (same predicate, label, arguments, alignment, strings): adjacent or at the end
+        i_ = rng.randrange(len(rels))
+        rels.insert(rng.choice([i_ + 1, len(rels)]), json.loads(json.dumps(rels[i_])))
     hcons = []
     for _ in range(rng.choice([0, 0, 1, 1, 2, 3])):
         hi = gen_var(rng, "h" if rng.random() < 0.9 else None, pool)
@@ -294,13 +304,43 @@ def gen_mrs(rng, codec, size=None, pred_family=None):
     vs = []
     seen = set()
     cand = list(dict.fromkeys(varpos))
+    elsewhere = []
+    if codec == "json":
+        # MRS-JSON writes the property map of EVERY variable: also of those that occur only as top, as a label or
+        # as the lo of a handle constraint (no other format can carry these)
+        elsewhere = [v for v in dict.fromkeys(pool) if v not in cand]
+        cand += elsewhere
     rng.shuffle(cand)
     for v in cand:
         if rng.random() < 0.5 and v not in seen:
-            if variable.type(v) == "h" and rng.random() < 0.8:
+            if variable.type(v) == "h" and v not in elsewhere and rng.random() < 0.8:
                 continue
             seen.add(v)
             vs.append([cps(v), gen_props(rng)])
+    # string fields that coincide with another field of the same structure (a reader that treats one of them as
+    # redundant, or keys a table by the text, shows only here)
+    if rels and rng.random() < 0.12:
+        e = rng.choice(rels)
+        carg = next((a for a in e["args"] if uncps(a[0]) == "CARG"), None)
+        pick = rng.choice(["surface=pred", "carg=pred", "surface=carg", "base=surface", "surface=label", "carg=var",
+                           "same surface twice"])
+        if pick == "surface=pred":
+            e["surface"] = list(e["pred"])
+        elif pick == "carg=pred" and carg is not None:
+            carg[1] = list(e["pred"])
+        elif pick == "surface=carg" and carg is not None:
+            e["surface"] = list(carg[1])
+        elif pick == "base=surface" and codec in ("json", "mrx"):
+            e["surface"] = e["surface"] if e["surface"] is not None else cps("x y")
+            e["base"] = list(e["surface"])
+        elif pick == "surface=label":
+            e["surface"] = list(e["label"])
+        elif pick == "carg=var" and carg is not None and pool:
+            carg[1] = cps(rng.choice(pool))
+        elif pick == "same surface twice":
+            e2 = rng.choice(rels)
+            e["surface"] = e["surface"] if e["surface"] is not None else cps("same")
+            e2["surface"] = list(e["surface"])
     mlnk = None
     surface = ident = None
     if codec in ("simple", "mrx") and rng.random() < 0.5:
@@ -309,6 +349,10 @@ def gen_mrs(rng, codec, size=None, pred_family=None):
         surface = gen_text(rng)
     if codec == "mrx" and rng.random() < 0.3:
         ident = gen_text(rng)
+    if rels and codec in ("simple", "mrx") and rng.random() < 0.06:
+        surface = uncps(rng.choice(rels)["surface"] or rng.choice(rels)["pred"])     # structure surface = an EP's
+        if codec == "mrx" and rng.random() < 0.5:
+            ident = surface
     return {"top": cps(top), "index": cps(index), "rels": rels, "hcons": hcons, "icons": icons, "vars": vs,
             "lnk": mlnk, "surface": cps(surface), "ident": cps(ident)}
 
@@ -475,9 +519,18 @@ def gen_ix_mrs(rng, preds=None):
                 args.append([cps(r), cps(var(v))])
         if not any(r == "CARG" for r, _, _ in syn) and (p == "yofc" or rng.random() < 0.12):
             args.append([cps("CARG"), cps(gen_text(rng, allow_empty=False))])
+        label = var("h")
+        carg_ = next((a for a in args if uncps(a[0]) == "CARG"), None)
+        if carg_ is not None and rng.random() < 0.15:
+            # a constant that coincides with another piece of the same predication
+            others = [uncps(v) for k_, v in args if uncps(k_) != "CARG"] + [p, label]
+            carg_[1] = cps(rng.choice(others))
         rng.shuffle(args)
-        rels.append({"pred": cps(p), "label": cps(var("h")), "args": args,
+        rels.append({"pred": cps(p), "label": cps(label), "args": args,
                      "lnk": gen_lnk(rng, "indexed"), "surface": None, "base": None})
+    if rels and rng.random() < 0.08:
+        i_ = rng.randrange(len(rels))
+        rels.insert(rng.choice([i_ + 1, len(rels)]), json.loads(json.dumps(rels[i_])))
     hcons = [[cps(var("h")), cps(rng.choice(["qeq", "lheq", "outscopes"])), cps(var("h"))]
              for _ in range(rng.choice([0, 1, 1, 2]))]
     icons = [[cps(var(rng.choice("ex"))), cps(rng.choice(["topic", "focus"])), cps(var(rng.choice("ex")))]
@@ -727,9 +780,31 @@ def fresh_semi(preds):
                           roles={r: {"value": v} for r, v in IX_ROLES.items()}, predicates=pd)
 
 
+# ---- MRX documents not written by the encoder: the reader's branches the encoder's output never takes
+# (`lo` given as a var element, one of cfrom/cto missing, realpred attributes predicate.create rejects); whatever
+# decode() returns for them is an MRS and must round-trip like any other
+_FM = ('<mrs%s><label vid="0"/><var vid="2" sort="e"><extrapair><path>TENSE</path><value>PRES</value></extrapair></var>'
+       '<ep cfrom="0" cto="3">%s<label vid="1"/><fvpair><rargname>arg0</rargname><var vid="2" sort="E"/></fvpair>'
+       '<fvpair><rargname>CARG</rargname><constant> K </constant></fvpair></ep>'
+       '<hcons hreln="qeq"><hi><var vid="0" sort="h"/></hi><lo>%s</lo></hcons></mrs>')
+_RP = '<realpred lemma="%s" pos="%s"%s/>'
+FOREIGN_MRX = [
+    _FM % ("", _RP % ("rain", "v", ' sense="1"'), '<var vid="1" sort="h"/>'),
+    _FM % ("", _RP % ("rain", "v", ""), '<var vid="7" sort="H"/>'),
+    _FM % (' cfrom="1" cto="2" surface="s" ident="i"', "<pred>udef_q</pred>", '<label vid="1"/>'),
+    _FM % (' cfrom="1"', "<spred>a b</spred>", '<label vid="1"/>'),
+    _FM % (' cto="1"', "<spred>a b</spred>", '<label vid="1"/>'),
+    _FM % ("", _RP % ("a b", "v", ""), '<label vid="1"/>'),
+    _FM % ("", _RP % ("rain", "zz", ""), '<label vid="1"/>'),
+    _FM % ("", _RP % ("rain", "V", ' sense="x y"'), '<label vid="1"/>'),
+    "<mrs-list>" + _FM % ("", "<pred>named</pred>", '<var vid="1" sort="h"/>') + "</mrs-list>",
+]
+
+
 # ------------------------------------------------------------------ the property, re-stated naively
 
 INDENTS = [False, True, None, 0, 2]
+EXTRA_INDENTS = [1, 3, 4, 7]      # one of them per case (field indent_extra), all of them in the deterministic block
 
 
 def same_lnk(codec, a, b):
@@ -994,8 +1069,14 @@ class C01(Check):
             "blanks, NBSP) and, for the model only, un-normalised ones; constants and surface/base/identifier "
             "strings over an alphabet weighted to \" \\ ' : < > [ ] & ; XML/JSON metacharacters, combining and "
             "astral characters, no Cc/Cs/Zl/Zp; every Lnk kind the codec carries; x properties on/off x lnk on/off "
-            "x indent in {False,True,None,0,2} x encode/decode, dumps/loads, dump/load (StringIO, file); a purity clause "
-            "(first encode/decode repeated after the battery). In every run 28 long documents (SimpleMRS, Indexed; "
+            "x indent in {False,True,None,0,2} plus one of {1,3,4,7} per case x encode/decode, dumps/loads, dump/load "
+            "(StringIO, file name, open file; deterministically every codec x properties x lnk through file names with all "
+            "indent widths); identical predications repeated (adjacent / apart), string fields that coincide (surface = "
+            "predicate / label / constant, base = surface, constant = a variable of the same EP), MRS-JSON properties on "
+            "variables outside every variable position; empty parts passed as None to the constructors; a purity clause "
+            "(first encode/decode repeated after the battery) and an error-path clause (calls that raise half-way - "
+            "variables without digits, predicates and roles the SEM-I lacks, truncated and half-valid documents - "
+            "between normal calls). Hand-written MRX documents for the reader branches the encoder never takes. In every run 28 long documents (SimpleMRS, Indexed; "
             "item starts -3..+3 tokens around 1024 and 2048) and 4 single structures of > 1024 / > 2048 tokens. "
             "Also in every run 36 long TEXT documents for MRX and MRS-JSON (> 16, > 64 and > 128 KiB; leading item shifted "
             "by 1..40 characters; for MRX item starts exactly -1/0/+1 characters from 8192, 16384, 32768, 65536) "
@@ -1014,8 +1095,13 @@ class C01(Check):
         "SimpleMRS and Indexed MRS: the regex lexers are modelled character by character (Lexer.lean, IxLexer.lean; "
         "ASCII digits for \\d) and compared with the real lexers on strings over the token alphabets and on the real "
         "encoders' texts in every layout; the un-indented layouts `render`/`renderIx` and the indented SimpleMRS "
-        "layout `renderInd` are compared with the real encode() text; the indented Indexed MRS and MRX layouts are "
-        "not modelled (the real lexer's token stream / the ElementTree of the real text is what is compared)",
+        "layout `renderInd` are compared with the real encode() text; the indented Indexed MRS layout `renderIxInd n` "
+        "is compared with the real encode()/dumps() text for indent=True and one integer width per case; the indented "
+        "MRX layout is not modelled (the ElementTree of the real text is what is compared)",
+        "list API: dumps/loads of all items of every rt case are compared with the models' document functions "
+        "(toksMany/parseMany, toXmlList/ofXmlList, toDictList/fromDictList, toksIx of every item/parseManyIx); "
+        "ofXmlList takes the mrs elements in document order (iterparse: end events) - the same on trees without "
+        "nested mrs elements",
         "Indexed MRS: the model receives the SEM-I as tables (synopses, property lists per sort, descendants of "
         "both hierarchies) computed by the harness from the same literals the SemI object is built from",
         "case folding (str.lower/upper) is modelled on ASCII; generated atoms that get case-folded contain only "
@@ -1073,7 +1159,8 @@ class C01(Check):
                 mj = gen_mrs(rng, codec, size=size, pred_family=family)
             items.append(mj)
         case = {"kind": "rt", "codec": codec, "items": items, "props": rng.random() < 0.7, "lnk": rng.random() < 0.7,
-                "file": rng.random() < 0.15, "expressible": family != "unnormalised"}
+                "file": rng.random() < 0.15, "expressible": family != "unnormalised",
+                "indent_extra": rng.choice(EXTRA_INDENTS)}
         case.update(extra)
         return case
 
@@ -1155,8 +1242,17 @@ class C01(Check):
                     yield self.rt_case(rng, codec, n_items=1, size=1, family=fam)
                     yield self.rt_case(rng, codec, n_items=2, size=2, family=fam)
                 yield self.rt_case(rng, codec, n_items=1, size=2, family="unnormalised")
+            # every API path x option combination, deterministically: file names, every extra indent width
+            for (p_, l_) in ((True, True), (True, False), (False, True), (False, False)):
+                c_ = self.rt_case(rng, codec, n_items=2, size=None if codec == "indexed" else 3)
+                c_.update({"props": p_, "lnk": l_, "file": True, "indent_all": list(EXTRA_INDENTS)})
+                if codec == "indexed" and p_ == l_:
+                    c_["indent_extra"] = 0 if p_ else 5       # the widths 0 and 5 of the modelled layout
+                yield c_
         for lc in longtext_cases(tier):
             yield lc
+        for t_ in FOREIGN_MRX:
+            yield {"kind": "foreign", "codec": "mrx", "text": cps(t_)}
         for codec in ("indexed", "simple", "mrx", "json"):
             yield gen_churn(rng, codec)
         for lc in long_cases():
@@ -1254,36 +1350,91 @@ class C01(Check):
             return xml_to_wire(etree.fromstring(mrx.encode(m, properties=props, lnk=lnk)))
         return real_lex_ix(indexedmrs.encode(m, semi or ix_semi(), properties=props, lnk=lnk))
 
+    @staticmethod
+    def ix_width(case):
+        """the integer indentation width whose Indexed MRS layout is compared with the model (besides indent=True)"""
+        w = case.get("indent_extra")
+        return 3 if w is None else w
+
+    def impl_first(self, case):
+        """the first item alone: encode / decode / re-encode under the case's options"""
+        if not case["items"]:
+            return {"empty": True}
+        codec, props, lnk = case["codec"], case["props"], case["lnk"]
+        c = self.codec_for(case)
+        sm = c.kw.get("semi")
+        try:
+            m = m_from_wire(case["items"][0])
+            first = self.inter(codec, m, props, lnk, sm)
+            text = c.encode(m, properties=props, lnk=lnk)
+        except Exception as e:
+            return {"err": errname(e)}
+        key = {"simple": "toks", "json": "dict", "mrx": "xml", "indexed": "toks"}[codec]
+        rekey = {"simple": "retoks", "json": "redict", "mrx": "rexml", "indexed": "retoks"}[codec]
+        lay = {"text": cps(text)} if codec in ("simple", "indexed") else {}
+        if codec == "simple":
+            lay["textind"] = cps(c.encode(m_from_wire(case["items"][0]), properties=props, lnk=lnk, indent=True))
+        if codec == "indexed":
+            lay["textind"] = cps(c.encode(m_from_wire(case["items"][0]), properties=props, lnk=lnk, indent=True))
+            lay["textindn"] = cps(c.encode(m_from_wire(case["items"][0]), properties=props, lnk=lnk,
+                                           indent=self.ix_width(case)))
+        try:
+            d = c.decode(text)
+        except Exception as e:
+            return {key: first, "dec": {"err": errname(e) if codec in ("simple", "indexed") else "Exception"}, **lay}
+        out = {key: first, "dec": m_to_wire(d), **lay}
+        if codec in ("simple", "indexed"):
+            out["rest"] = 0
+        try:
+            out[rekey] = self.inter(codec, d, props, lnk, sm)
+        except Exception as e:
+            out[rekey] = {"err": errname(e)}
+        return out
+
+    def impl_list(self, case):
+        """the list API on all items of the case: intermediate form of dumps(items) (single-line layout), what
+        loads() makes of that text; SimpleMRS also the indented text, MRX also loads() of the single-item text"""
+        codec, props, lnk = case["codec"], case["props"], case["lnk"]
+        c = self.codec_for(case)
+        o = {"properties": props, "lnk": lnk}
+        try:
+            ms = [m_from_wire(j) for j in case["items"]]
+            text = c.dumps(ms, **o)
+        except Exception as e:
+            return {"err": errname(e)}
+        out = {}
+        if codec == "simple":
+            out["toks"] = real_lex(text)
+            out["text"] = cps(text)
+            out["textind"] = cps(c.dumps([m_from_wire(j) for j in case["items"]], **o, indent=True))
+        elif codec == "indexed":
+            out["toks"] = real_lex_ix(text)
+            out["text"] = cps(text)
+            out["textind"] = cps(c.dumps([m_from_wire(j) for j in case["items"]], **o, indent=True))
+            out["textindn"] = cps(c.dumps([m_from_wire(j) for j in case["items"]], **o, indent=self.ix_width(case)))
+        elif codec == "json":
+            out["dict"] = j_to_wire(json.loads(text))
+        else:
+            out["xml"] = xml_to_wire(etree.fromstring(text))
+        try:
+            out["dec"] = [m_to_wire(d) for d in c.loads(text)]
+        except Exception as e:
+            out["dec"] = {"err": errname(e) if codec in ("simple", "indexed") else "Exception"}
+        if codec == "mrx":
+            if case["items"]:
+                try:
+                    out["dec1"] = [m_to_wire(d) for d in c.loads(c.encode(m_from_wire(case["items"][0]), **o))]
+                except Exception:
+                    out["dec1"] = {"err": "Exception"}
+            else:
+                out["dec1"] = None
+        return out
+
     def impl(self, case):
         k = case["kind"]
         if k == "rt":
-            if not case["items"]:
-                return {"empty": True}
-            codec, props, lnk = case["codec"], case["props"], case["lnk"]
-            c = self.codec_for(case)
-            sm = c.kw.get("semi")
-            try:
-                m = m_from_wire(case["items"][0])
-                first = self.inter(codec, m, props, lnk, sm)
-                text = c.encode(m, properties=props, lnk=lnk)
-            except Exception as e:
-                return {"err": errname(e)}
-            key = {"simple": "toks", "json": "dict", "mrx": "xml", "indexed": "toks"}[codec]
-            rekey = {"simple": "retoks", "json": "redict", "mrx": "rexml", "indexed": "retoks"}[codec]
-            lay = {"text": cps(text)} if codec in ("simple", "indexed") else {}
-            if codec == "simple":
-                lay["textind"] = cps(c.encode(m_from_wire(case["items"][0]), properties=props, lnk=lnk, indent=True))
-            try:
-                d = c.decode(text)
-            except Exception as e:
-                return {key: first, "dec": {"err": errname(e) if codec in ("simple", "indexed") else "Exception"}, **lay}
-            out = {key: first, "dec": m_to_wire(d), **lay}
-            if codec in ("simple", "indexed"):
-                out["rest"] = 0
-            try:
-                out[rekey] = self.inter(codec, d, props, lnk, sm)
-            except Exception as e:
-                out[rekey] = {"err": errname(e)}
+            out = self.impl_first(case)
+            out["list"] = self.impl_list(case)
             return out
         if k == "long":
             return {"items": len(case["items"]), "tokens": case.get("tokens")}
@@ -1291,6 +1442,11 @@ class C01(Check):
             return {"items": case["n"] + 1}
         if k == "churn":
             return {"items": len(case["items"])}
+        if k == "foreign":
+            try:
+                return {"ok": m_to_wire(mrx.decode(uncps(case["text"])))}
+            except Exception as e:
+                return {"err": errname(e)}
         if k == "lex":
             try:
                 return {"ok": real_lex(uncps(case["s"]))}
@@ -1341,11 +1497,10 @@ class C01(Check):
     def model_request(self, case):
         k = case["kind"]
         if k == "rt":
-            if not case["items"]:
-                return None
-            req = {"op": case["codec"], "m": case["items"][0], "props": case["props"], "lnk": case["lnk"]}
+            req = {"op": case["codec"], "ms": case["items"], "props": case["props"], "lnk": case["lnk"]}
             if case["codec"] == "indexed":
                 req["semi"] = semi_wire(case.get("semi") or IX_PREDS)
+                req["n"] = self.ix_width(case)
             return req
         if k == "parse":
             try:
@@ -1380,6 +1535,26 @@ class C01(Check):
         return res
 
     def model_compare(self, case, expected, answer):
+        if (case["kind"] == "rt" and isinstance(answer, dict) and isinstance(expected, dict)
+                and isinstance(answer.get("list"), dict) and isinstance(expected.get("list"), dict)):
+            # the list part gets the same normalisations as the single part
+            al, el = dict(answer["list"]), dict(expected["list"])
+            expressible = case.get("expressible", True)
+            if case["codec"] == "simple":
+                # "[  ]" of an empty structure has two blanks; un-normalised predicates: layout not compared
+                if not expressible or "[  ]" in (uncps(el.get("text")) or ""):
+                    al.pop("text", None), el.pop("text", None)
+                if not expressible or not case["items"] or "[  ]" in (uncps(el.get("textind")) or ""):
+                    al.pop("textind", None), el.pop("textind", None)
+                if not expressible:
+                    for key in ("toks",):
+                        for d_ in (al, el):
+                            if isinstance(d_.get(key), list):
+                                d_[key] = [["SYMBOL" if k_ == "PREDICATE" else k_, t] for k_, t in d_[key]]
+            if case["codec"] == "mrx" and "xml" in al:
+                al["xml"] = sort_xml_attrs(al["xml"])
+            answer = dict(answer, list=al)
+            expected = dict(expected, list=el)
         if (case["kind"] == "rt" and case["codec"] == "simple" and isinstance(answer, dict)
                 and isinstance(expected, dict) and "text" in answer):
             # layout: the model's `render` is the single-line layout of a non-empty token list ("[  ]" of
@@ -1452,6 +1627,25 @@ class C01(Check):
             return self.oracle_longtext(case)
         if k == "churn":
             return self.oracle_churn(case)
+        if k == "foreign":
+            if "ok" in res:
+                c = self.codecs[case["codec"]]
+                for (p_, l_) in ((True, True), (False, True), (True, False)):
+                    try:
+                        m = c.decode(uncps(case["text"]))
+                        t = c.encode(m, properties=p_, lnk=l_)
+                        d = c.decode(t)
+                        diffs = compare(case["codec"], p_, l_, m, d)
+                        if diffs:
+                            fail("%s: a structure read from a foreign document does not round-trip (%s)"
+                                 % (case["codec"], ", ".join(diffs)), t[:300])
+                        if c.encode(d, properties=p_, lnk=l_) != t:
+                            fail("%s: re-encoding (foreign document) does not reproduce the text" % case["codec"], t[:300])
+                        if [m_to_wire(x) for x in c.loads(c.dumps([m, m], properties=p_, lnk=l_))] != [m_to_wire(d)] * 2:
+                            fail("%s: dumps/loads (foreign document) differs from the single round trip" % case["codec"], "")
+                    except Exception as e:
+                        fail("%s: round trip of a structure read from a foreign document raises" % case["codec"], errname(e))
+            return fails
         if k != "rt":
             return fails
         codec, props, lnk = case["codec"], case["props"], case["lnk"]
@@ -1502,13 +1696,14 @@ class C01(Check):
                 fail("%s %s: re-encoding the decoded structure does not reproduce the text" % (codec, label),
                      repr((text[:300], again[:300])))
 
+        extra_ind = case.get("indent_all") or ([case["indent_extra"]] if case.get("indent_extra") is not None else [])
         # single items, every indent setting (all four option combinations for the first item)
         for idx, m in enumerate(ms):
             combos = [(props, lnk)]
             if idx == 0:
                 combos += [(p, l) for p in (True, False) for l in (True, False) if (p, l) != (props, lnk)]
             for (p_, l_) in combos:
-                for ind in INDENTS:
+                for ind in (INDENTS + extra_ind if (idx == 0 and (p_, l_) == (props, lnk)) else INDENTS):
                     try:
                         text = c.encode(m, properties=p_, lnk=l_, indent=ind)
                     except Exception as e:
@@ -1542,7 +1737,7 @@ class C01(Check):
                 if xml_to_wire(e1) != xml_to_wire(e2):
                     fail("xml.etree: fromstring(tostring(e)) != e", "")
         # list API
-        for ind in INDENTS:
+        for ind in INDENTS + extra_ind:
             try:
                 text = c.dumps(ms, **o, indent=ind)
                 ds = c.loads(text)
@@ -1577,13 +1772,23 @@ class C01(Check):
                 fail("%s dump/load (file object) raises" % codec, "%s indent=%r" % (errname(e), ind))
         if case.get("file"):
             fn = os.path.join(self.tmp, "doc.txt")
-            try:
-                c.dump(ms, fn, **o, indent=True)
-                ds3 = c.load(fn)
-                if len(ds3) != len(ms) or any(compare(codec, props, lnk, m, d) for m, d in zip(ms, ds3)):
-                    fail("%s dump/load (filename): decoded structures differ from the originals" % codec, "")
-            except Exception as e:
-                fail("%s dump/load (filename) raises" % codec, errname(e))
+            for ind in [True, False] + extra_ind:
+                try:
+                    c.dump(ms, fn, **o, indent=ind)
+                    ds3 = c.load(fn)
+                    if len(ds3) != len(ms) or any(compare(codec, props, lnk, m, d) for m, d in zip(ms, ds3)):
+                        fail("%s dump/load (filename): decoded structures differ from the originals" % codec,
+                             "indent=%r" % (ind,))
+                    with open(fn, encoding="utf-8") as fh:
+                        ds4 = c.load(fh)
+                    if len(ds4) != len(ms) or any(compare(codec, props, lnk, m, d) for m, d in zip(ms, ds4)):
+                        fail("%s dump (filename) / load (open file): decoded structures differ from the originals"
+                             % codec, "indent=%r" % (ind,))
+                except Exception as e:
+                    fail("%s dump/load (filename) raises" % codec, "%s indent=%r" % (errname(e), ind))
+        # error paths: calls that raise half-way must leave nothing behind for the normal calls that follow
+        if ms:
+            self.failing_calls(case, c, o, fail)
         # the originals were not modified by encoding
         for j, m in zip(case["items"], ms):
             if m_to_wire(m) != m_to_wire(m_from_wire(j)):
@@ -1609,6 +1814,85 @@ class C01(Check):
             except Exception as e:
                 fail("%s purity: decoding under the first SEM-I again raises" % codec, errname(e))
         return fails
+
+    def failing_calls(self, case, c, o, fail):
+        """state left behind on an error path: (1) encode/dumps of the first item with one more EP, placed FIRST, whose
+        argument is a variable that carries properties but is not of the form sort+digits (variable.type / split /
+        the SEM-I lookup raise before or while the rest is written), and with an EP placed LAST whose predicate the
+        SEM-I does not define and whose label is not a variable; both property settings, both layouts;
+        (2) decode/loads of truncated texts.  The exceptions are expected and ignored; afterwards the first item must
+        still round-trip under properties off and on (nothing of the abandoned calls may show)."""
+        codec, lnk = case["codec"], case["lnk"]
+        base = case["items"][0]
+
+        def poisoned(first):
+            j = json.loads(json.dumps(base))
+            if first:
+                ep = {"pred": cps("_rain_v_1"), "label": cps("h1"), "args": [[cps("ARG0"), cps("e2")], [cps("ARG1"), cps("zz")], [cps("ARG9"), cps("zz")]],
+                      "lnk": None, "surface": None, "base": None}
+                j["rels"] = [ep] + j["rels"]
+                j["vars"] = [[cps("zz"), [[cps("TENSE"), cps("past")], [cps("SF"), cps("ques")]]]] + j["vars"]
+            else:
+                ep = {"pred": cps("_zz_v_unknown"), "label": cps("zz"), "args": [[cps("ARG0"), cps("e2")]],
+                      "lnk": None, "surface": None, "base": None}
+                j["rels"] = j["rels"] + [ep]
+                j["icons"] = j["icons"] + [[cps("zz"), cps("topic"), cps("zz")]]
+                j["vars"] = j["vars"] + [[cps("zz"), [[cps("PERS"), cps("3")]]]]
+            return j
+        def verify(after):
+            for p_ in (False, True):
+                try:
+                    m = m_from_wire(base)
+                    t = c.encode(m, properties=p_, lnk=lnk)
+                    diffs = compare(codec, p_, lnk, m, c.decode(t))
+                    if diffs:
+                        fail("%s after %s that raised: decoded structure differs from the original (%s)"
+                             % (codec, after, ", ".join(diffs)), "properties=%r %s" % (p_, t[:300]))
+                except Exception as e:
+                    fail("%s after %s that raised: encode/decode raises" % (codec, after), errname(e))
+        raised = 0
+        try:
+            t = c.encode(m_from_wire(base), **o)
+            for cut in (len(t) // 2, len(t) - 1, 1):
+                for call in (c.decode, c.loads):
+                    try:
+                        call(t[:cut])
+                    except Exception:
+                        raised += 1
+        except Exception:
+            pass
+        # documents the parsing library accepts but the reader gives up on half-way
+        halfway = []
+        if codec == "mrx":
+            halfway = [FOREIGN_MRX[3], FOREIGN_MRX[5], "<mrs-list>" + FOREIGN_MRX[0] + FOREIGN_MRX[4] + "</mrs-list>"]
+        elif codec == "json":
+            try:
+                dd = mrsjson.to_dict(m_from_wire(base))
+                dd["relations"] = [{"label": "h1", "predicate": "_rain_v_1", "arguments": {"ARG0": "e2"}}] + dd["relations"]
+                no_top = {k_: v for k_, v in dd.items() if k_ != "top"}
+                bad_ep = dict(dd, relations=dd["relations"] + [{"label": "h1"}])
+                halfway = [json.dumps(no_top), json.dumps(bad_ep), json.dumps([dd, no_top])]
+            except Exception:
+                halfway = []
+        for t_ in halfway:
+            for call in (c.decode, c.loads):
+                try:
+                    call(t_)
+                except Exception:
+                    raised += 1
+        verify("decode calls")
+        # the call that leaves most behind comes last: properties on, the failing predication first
+        for first, p_ in ((False, False), (False, True), (True, False), (True, True)):
+            for kw in ({"indent": True}, {}):
+                for call in ("dumps", "encode"):
+                    try:
+                        m = m_from_wire(poisoned(first))
+                        c.encode(m, properties=p_, lnk=lnk, **kw) if call == "encode" else \
+                            c.dumps([m_from_wire(base), m], properties=p_, lnk=lnk, **kw)
+                    except Exception:
+                        raised += 1
+        verify("encode calls")
+        self._last_failing = (json.dumps(case, sort_keys=True)[:200], raised)
 
     # ---------------------------------------------------------------- long documents
     def oracle_long(self, case):
@@ -1801,8 +2085,30 @@ class C01(Check):
             inc("codec:" + case["codec"])
             inc("items:%d" % len(case["items"]))
             inc("opts:props=%s,lnk=%s" % (case["props"], case["lnk"]))
+            if case.get("file"):
+                inc("api:file-name:props=%s,lnk=%s" % (case["props"], case["lnk"]))
+            lf = getattr(self, "_last_failing", None)
+            if lf and lf[0] == json.dumps(case, sort_keys=True)[:200]:
+                inc("failing calls made between normal calls (exceptions raised):%s" % case["codec"], lf[1])
+            for x_ in case.get("indent_all") or ([case["indent_extra"]] if case.get("indent_extra") is not None else []):
+                inc("indent-extra:%s" % x_)
+            if case["codec"] == "json":
+                for mj in case["items"]:
+                    used = {uncps(v) for e in mj["rels"] for k_, v in e["args"] if uncps(k_) != "CARG"}
+                    used |= {uncps(mj["index"])} | {uncps(x) for ic in mj["icons"] for x in (ic[0], ic[2])}
+                    if any(uncps(v) not in used and ps for v, ps in mj["vars"]):
+                        inc("json:properties on a variable outside every variable position")
             for mj in case["items"]:
                 inc("eps:%d" % min(len(mj["rels"]), 9))
+                rs_ = [json.dumps(e, sort_keys=True) for e in mj["rels"]]
+                if any(a == b for a, b in zip(rs_, rs_[1:])):
+                    inc("duplicate EP:adjacent")
+                elif len(set(rs_)) < len(rs_):
+                    inc("duplicate EP:apart")
+                if len({json.dumps(h) for h in mj["hcons"]}) < len(mj["hcons"]):
+                    inc("duplicate hcons")
+                if len({json.dumps(h) for h in mj["icons"]}) < len(mj["icons"]):
+                    inc("duplicate icons")
                 inc("hcons:%d" % len(mj["hcons"]))
                 inc("icons:%d" % len(mj["icons"]))
                 inc("vars-with-props:%d" % min(len(mj["vars"]), 6))
@@ -1824,6 +2130,17 @@ class C01(Check):
                                 inc("carg:astral")
                     if e["surface"] is not None:
                         inc("ep-surface" + (":empty" if not e["surface"] else ""))
+                        if e["surface"] == e["pred"]:
+                            inc("coincide:surface=pred")
+                        if e["surface"] == e["label"]:
+                            inc("coincide:surface=label")
+                        if e["base"] is not None and e["base"] == e["surface"]:
+                            inc("coincide:base=surface")
+                    for r, v in e["args"]:
+                        if uncps(r) == "CARG" and (v == e["pred"] or v == e["surface"]):
+                            inc("coincide:carg=pred/surface")
+                        if uncps(r) == "CARG" and (v == e["label"] or any(v == v2 and r2 != r for r2, v2 in e["args"])):
+                            inc("coincide:carg=variable of the same EP")
             if isinstance(res, dict):
                 if "err" in res:
                     inc("encode-err:" + str(res["err"]))
@@ -1833,6 +2150,9 @@ class C01(Check):
         elif k == "longtext":
             inc("longtext:%s:>%dKiB%s" % (case["codec"], case["target"] // 1024,
                                            ":exact%+d" % case["exact"] if case.get("exact") is not None else ""))
+        elif k == "foreign":
+            inc("foreign:%s:%s" % (case["codec"], "ok" if isinstance(res, dict) and "ok" in res else
+                                    (res or {}).get("err") if isinstance(res, dict) else "?"))
         elif k == "churn":
             inc("churn:" + case["codec"])
         elif k == "long":
